@@ -129,5 +129,25 @@ def main():
         return run(a[1], checks, tier)
 
 
+
+
+def table():
+    """markdown table of all seeded changes (Appendix E of DESIGN.md)"""
+    rows = ['| seed | property | what it breaks / what it needs to manifest | confirmed (demo fails with patch, passes without; baseline 542/542) | checks run -> caught |',
+            '|------|----------|---------------------------------------------|------|------|']
+    for d in sorted(SEEDED.glob('*/meta.json')):
+        m = json.loads(d.read_text())
+        c = m.get('confirmed', {})
+        chk = '; '.join('%s %s: %s' % (p, r.get('tier', ''), 'CAUGHT' if r.get('caught') else 'missed') for p, r in sorted(m.get('checks', {}).items()))
+        what = str(m.get('what_it_breaks', m.get('title', '')))[:170].replace('|', '/').replace('\n', ' ')
+        need = str(m.get('needs_to_manifest', ''))[:170].replace('|', '/').replace('\n', ' ')
+        rows.append('| %s | %s | %s -- needs: %s | %s | %s |' % (d.parent.name, m.get('property', ''), what, need,
+                                                            'yes' if c.get('ok') else 'NO', chk))
+    return '\n'.join(rows)
+
+
 if __name__ == '__main__':
-    sys.exit(main())
+    if len(sys.argv) > 1 and sys.argv[1] == 'table':
+        print(table())
+    else:
+        sys.exit(main())
